@@ -46,7 +46,8 @@ const CALL_TIMEOUT: Duration = Duration::from_secs(5);
 const HANG_TIMEOUT: Duration = Duration::from_secs(60);
 static SLOW: AtomicUsize = AtomicUsize::new(0);
 static START_RETRIES: AtomicUsize = AtomicUsize::new(0);
-const WORK: &str = "/verif/work/C14";
+/// scratch folder of this run: $VERIF_WORK/C14 (chk passes VERIF_WORK; concurrent runs use different ones)
+fn work_dir() -> String { format!("{}/C14", std::env::var("VERIF_WORK").unwrap_or_else(|_| "/verif/work".to_string())) }
 const PROBE_NS: &str = "c14probe { Probe { name: String } }";
 
 fn panics() -> usize { PANICS.load(Ordering::SeqCst) }
@@ -57,7 +58,7 @@ pub struct Inst { pub app: GraphDatabaseService, pub path: PathBuf, pub vk: Vec<
 impl Inst {
     pub async fn start(model: &str) -> Inst {
         let n = INST_COUNTER.fetch_add(1, Ordering::SeqCst);
-        let path: PathBuf = format!("{}/inst_{}", WORK, n).into();
+        let path: PathBuf = format!("{}/inst_{}", work_dir(), n).into();
         let _ = std::fs::remove_dir_all(&path);
         std::fs::create_dir_all(&path).unwrap();
         let full = format!("{}\n{}", model, PROBE_NS);
@@ -453,9 +454,8 @@ async fn main() {
         *LAST_PANIC.lock().unwrap() = info.to_string().replace('\n', " ").chars().take(200).collect();
         if std::thread::current().name() == Some("main") || info.location().map(|l| l.file().contains("/verif/harness") || l.file().starts_with("src/")).unwrap_or(false) { eprintln!("harness panic: {}", info); }
     }));
-    let _ = std::fs::remove_dir_all(WORK.to_string() + "/inst_tmp");
-    std::fs::create_dir_all(WORK).unwrap();
-    for e in std::fs::read_dir(WORK).unwrap().flatten() { if e.file_name().to_string_lossy().starts_with("inst_") { let _ = std::fs::remove_dir_all(e.path()); } }
+    std::fs::create_dir_all(work_dir()).unwrap();
+    for e in std::fs::read_dir(work_dir()).unwrap().flatten() { if e.file_name().to_string_lossy().starts_with("inst_") { let _ = std::fs::remove_dir_all(e.path()); } }
     let mut rng = Rng::from_env();
     let mut out = Out::create();
     let mut stats = serde_json::Map::new();
@@ -587,7 +587,7 @@ async fn main() {
     eprintln!("c14 generator: {}", serde_json::Value::Object(stats.clone()));
     out.push(Case { kind: "stats".into(), coq: "CObs 0%N".into(), obs: vec![0, 1], meta: serde_json::Value::Object(stats) });
     out.finish();
-    for e in std::fs::read_dir(WORK).unwrap().flatten() { if e.file_name().to_string_lossy().starts_with("inst_") { let _ = std::fs::remove_dir_all(e.path()); } }
+    for e in std::fs::read_dir(work_dir()).unwrap().flatten() { if e.file_name().to_string_lossy().starts_with("inst_") { let _ = std::fs::remove_dir_all(e.path()); } }
     // leave without running exit handlers: reader / verifier threads of closed instances may still
     // be inside the engine and race with its global cleanup
     use std::io::Write;
